@@ -36,7 +36,7 @@ ANCHORS = ['recursiveloader:ManifestRecursiveLoader.assert_directory_verifies',
            'cli:verify_failure', 'verify:get_file_metadata']
 REQUIRED = ['recursiveloader:SubprocessVerifier._verify_one_file', 'handler_calls',
             'cli_runs', 'cli_multi_runs', 'walk_permuted', 'stress_runs', 'loop_runs',
-            'structural_cli_runs', 'process_exit_statuses']
+            'structural_cli_runs', 'process_exit_statuses', 'cli_nested_runs']
 ASSUMPTIONS = ['the Manifest chain is intact and duplicates agree in this workload '
                '(a broken chain / conflict is raised directly, C01/C02)',
                'handler return values are True / False / None']
@@ -45,7 +45,8 @@ CLASSES = ['content', 'size', 'delete', 'retype', 'stray', 'stray', 'stray-looka
            'stray-special', 'stray-manifest-name', 'm-digest', 'm-size', 'm-drop',
            'm-ghost', 'm-ghost', 'm-disjoint-wrong', 'm-compatible-dup',
            'm-manifest-dup-wrong', 'm-manifest-dup-wrong', 'm-entry-for-dir',
-           'hidden-listed', 'hidden-listed']
+           'hidden-listed', 'hidden-listed', 'm-ignore-missing-parent',
+           'm-ignore-missing-parent']
 N = {'quick': 2500, 'thorough': 100000}
 PER_UNIT = 25
 POLICIES = ['false', 'true', 'none', 'mixed']
@@ -58,6 +59,7 @@ def units(tier, seed):
     for n in ([255, 256, 512] if tier == 'quick' else
               [1, 255, 256, 257, 511, 512, 768, 1024]):
         u.append({'k': 'exitstatus', 'n': n})
+    u.append({'k': 'nested'})
     for i in range(10 if tier == 'quick' else 200):
         u.append({'k': 'loop', 'i': i})
     for i in range(9 if tier == 'quick' else 90):
@@ -350,6 +352,56 @@ def exec_stress(ctx, nstray, kind):
         ctx.sample(case, 'stress')
 
 
+def run_nested(u, ctx):
+    """`gemato verify -k OUTER INNER` where verifying OUTER does not cover INNER (a
+    hidden directory; an IGNOREd directory that is a tree of its own): the exit status
+    is that of the single-path runs taken together."""
+    from gemato import cli as gcli
+    with common.Scratch('vf-c07n-') as d:
+        root = os.path.join(d, 't')
+        os.makedirs(os.path.join(root, '.hid'))
+        os.makedirs(os.path.join(root, 'ign', 'deep'))
+        os.makedirs(os.path.join(root, 'plain'))
+        for pth, data in (('a', b'1'), ('.hid/stray', b'2'), ('ign/f', b'3'),
+                          ('ign/deep/g', b'4'), ('plain/p', b'5')):
+            with open(os.path.join(root, pth), 'wb') as f:
+                f.write(data)
+        with open(os.path.join(root, 'Manifest'), 'w') as f:
+            f.write(mtext.render([mtext.file_entry('DATA', 'a', b'1', ['SHA1']),
+                                  mtext.file_entry('DATA', 'plain/p', b'5', ['SHA1']),
+                                  {'tag': 'IGNORE', 'path': 'ign'}]))
+        # the ignored directory is a tree of its own, with an altered file
+        with open(os.path.join(root, 'ign', 'Manifest'), 'w') as f:
+            f.write(mtext.render([mtext.file_entry('DATA', 'f', b'3', ['SHA1']),
+                                  mtext.file_entry('DATA', 'deep/g', b'other', ['SHA1'])]))
+
+        def run(paths):
+            try:
+                return gcli.main(['gemato', 'verify', '-P', '-k'] +
+                                 [os.path.join(root, p) if p else root for p in paths])
+            except SystemExit:
+                return 'exit'
+            except Exception as exc:
+                return exc
+        single = {p: run([p]) for p in ('', '.hid', 'ign', 'ign/deep', 'plain')}
+        for paths in (['', '.hid'], ['.hid', ''], ['', 'ign'], ['ign', ''],
+                      ['', 'plain', 'ign/deep'], ['', ''], ['plain', 'plain', '.hid'],
+                      ['ign', 'ign/deep'], ['', 'plain']):
+            case = {'kind': 'nested', 'paths': paths}
+            ctx.case(sig=('nested', tuple(paths)), case=case, klass='nested')
+            ctx.count('cli_nested_runs')
+            rc = run(paths)
+            want_fail = any(single[p] != 0 for p in paths)
+            if isinstance(rc, Exception):
+                ctx.violation('cli-keep-going-raises:' + adapt.exc_key(rc),
+                              '`gemato verify -k %s` raised %r' % (' '.join(paths), rc),
+                              case)
+            elif (rc != 0) != want_fail:
+                ctx.violation('cli-exit-status-multi:nested', '`verify -k` over %r exits '
+                              '%r, the single-path runs exit %r' % (
+                                  paths, rc, [single[p] for p in paths]), case)
+
+
 def run_exitstatus(u, ctx):
     """`gemato verify -k` as a real process: whatever the number of offending paths,
     the exit status the shell sees is non-zero (an exit status is taken modulo 256)."""
@@ -545,7 +597,8 @@ def run_structural(u, ctx):
 
 def run_unit(u, ctx):
     {'gen': run_gen, 'stress': run_stress, 'loop': run_loop,
-     'structural': run_structural, 'exitstatus': run_exitstatus}[u['k']](u, ctx)
+     'structural': run_structural, 'exitstatus': run_exitstatus,
+     'nested': run_nested}[u['k']](u, ctx)
 
 
 def replay(case, ctx):
@@ -554,6 +607,9 @@ def replay(case, ctx):
         return
     if case.get('kind') == 'exitstatus':
         run_exitstatus({'n': case['n']}, ctx)
+        return
+    if case.get('kind') == 'nested':
+        run_nested({}, ctx)
         return
     if case.get('kind') == 'loop':
         exec_loop(ctx, case['names'], case['policy'], case['walk_seed'])
